@@ -145,7 +145,8 @@ theorem nodup_setTool (n : Bytes) (p : Props) {ts : Tools} (h : (toolNames ts).N
 /-! ## the invariant -/
 
 /-- Once a page that predates the last change of the server's table appears in the cache (most recent first), every
-older page predates it too. -/
+older page predates it too.  (Holds as long as responses arrive in the order of their requests; a response in flight that
+is overtaken by a change of the table breaks it — the invariant `SeqInv` uses `FirstCur` instead.) -/
 def CurSorted : List Page → Prop
   | [] => True
   | pg :: r => (pg.cur = false → ∀ q ∈ r, q.cur = false) ∧ CurSorted r
@@ -203,23 +204,89 @@ theorem lookup_cur {l : List Page} (hs : CurSorted l) {n : Bytes}
       · obtain ⟨q, hq, hqc, d, hd, hf⟩ := ih hs.2 ⟨pg, hr, hcur, hsome⟩
         exact ⟨q, List.mem_cons_of_mem _ hq, hqc, d, hd, by simp [List.findSome?, hx, hf]⟩
 
+/-- The most recently received page that names the tool is one received since the table last changed. -/
+def FirstCur (n : Bytes) : List Page → Prop
+  | [] => False
+  | pg :: r => if (toolDef pg.tools n).isSome = true then pg.cur = true else FirstCur n r
+
+theorem firstCur_lookup {n : Bytes} {l : List Page} (h : FirstCur n l) :
+    ∃ q ∈ l, q.cur = true ∧ ∃ d, toolDef q.tools n = some d ∧ l.findSome? (fun pg => toolDef pg.tools n) = some d := by
+  induction l with
+  | nil => cases h
+  | cons x r ih =>
+    simp only [FirstCur] at h
+    cases hx : toolDef x.tools n with
+    | some d =>
+      simp only [hx, Option.isSome_some, if_true] at h
+      exact ⟨x, List.mem_cons_self, h, d, hx, by simp [List.findSome?, hx]⟩
+    | none =>
+      simp only [hx, Option.isSome_none, Bool.false_eq_true, if_false] at h
+      obtain ⟨q, hq, hqc, d, hd, hf⟩ := ih h
+      exact ⟨q, List.mem_cons_of_mem _ hq, hqc, d, hd, by simp [List.findSome?, hx, hf]⟩
+
+/-- Dropping pages keeps the property as long as no page received since the last change that names the tool is dropped. -/
+theorem firstCur_filter {n : Bytes} (f : Page → Bool) {l : List Page} (h : FirstCur n l)
+    (hk : ∀ pg ∈ l, pg.cur = true → (toolDef pg.tools n).isSome = true → f pg = true) : FirstCur n (l.filter f) := by
+  induction l with
+  | nil => cases h
+  | cons x r ih =>
+    simp only [FirstCur] at h
+    by_cases hx : (toolDef x.tools n).isSome = true
+    · simp only [hx, if_true] at h
+      have hf : f x = true := hk x List.mem_cons_self h hx
+      simp only [List.filter, hf, FirstCur, hx, if_true]
+      exact h
+    · simp only [hx, if_false] at h
+      have ih' := ih h (fun pg hpg => hk pg (List.mem_cons_of_mem _ hpg))
+      simp only [List.filter]
+      split
+      · simp only [FirstCur, hx, if_false]
+        exact ih'
+      · exact ih'
+
+/-- If every cached page was received since the last change, the first page that names a tool is such a page. -/
+theorem firstCur_of_all_cur {n : Bytes} {l : List Page} (hall : ∀ pg ∈ l, pg.cur = true)
+    (hex : ∃ pg ∈ l, (toolDef pg.tools n).isSome = true) : FirstCur n l := by
+  induction l with
+  | nil =>
+    obtain ⟨pg, hpg, _⟩ := hex
+    cases hpg
+  | cons x r ih =>
+    simp only [FirstCur]
+    split
+    · exact hall x List.mem_cons_self
+    · rename_i hx
+      obtain ⟨pg, hpg, hs⟩ := hex
+      rcases List.mem_cons.mp hpg with he | hr
+      · subst he
+        exact absurd hs hx
+      · exact ih (fun q hq => hall q (List.mem_cons_of_mem _ hq)) ⟨pg, hr, hs⟩
+
 /-- What relates the observer's bookkeeping to the session. -/
 structure SeqInv (w : World) (m : SeqMon) : Prop where
   proto : m.newProto = w.newProto
   server : m.server = w.server
+  psize : m.pageSize = w.pageSize
   nodup : (toolNames w.server).Nodup
   curPage : ∀ pg ∈ w.cache, pg.cur = true → pg.tools = (serverPage w.server w.pageSize pg.key).1
-  curSorted : CurSorted w.cache
-  listed : ∀ n ∈ m.listed, ∃ pg ∈ w.cache, pg.cur = true ∧ (toolDef pg.tools n).isSome = true
+  listed : ∀ n ∈ m.listed, FirstCur n w.cache
+  /-- after a list_changed that followed the last change, the cache holds only pages requested after it -/
+  fresh : m.fresh = true → ∀ pg ∈ w.cache, pg.cur = true
+  /-- the observer's knowledge of the listing in flight is the ghost state of the model's -/
+  pendEq : m.pend = w.pend.map (fun p => (!p.cur, p.gen != w.gen))
+  pendLe : ∀ p, w.pend = some p → p.gen ≤ w.gen
+  pendCur : ∀ p, w.pend = some p → p.cur = true → p.tools = (serverPage w.server w.pageSize p.key).1
+  pendFresh : m.fresh = true → ∀ p, w.pend = some p → p.gen = w.gen → p.cur = true
 
 theorem seqInv_init (cfg : SeqCfg) : SeqInv (World.init cfg) (SeqMon.init cfg) :=
-  { proto := rfl, server := rfl, nodup := List.nodup_nil, curPage := fun _ h => (by cases h),
-    curSorted := trivial, listed := fun _ h => (by cases h) }
+  { proto := rfl, server := rfl, psize := rfl, nodup := List.nodup_nil, curPage := fun _ h => (by cases h),
+    listed := fun _ h => (by cases h), fresh := fun _ _ h => (by cases h), pendEq := rfl,
+    pendLe := fun _ h => (by cases h), pendCur := fun _ h => (by cases h), pendFresh := fun _ _ h => (by cases h) }
 
 /-- **The client finds the server's definition** of every tool it has listed since the table last changed. -/
 theorem SeqInv.lookup {w : World} {m : SeqMon} (h : SeqInv w m) {n : Bytes} (hn : n ∈ m.listed) :
     ∃ d, clientLookup w n = some d ∧ toolDef w.server n = some d := by
-  obtain ⟨q, hq, hqc, d, hd, hf⟩ := lookup_cur h.curSorted (h.listed n hn)
+  obtain ⟨q, hq, hqc, d, hd, hf⟩ := firstCur_lookup (h.listed n hn)
   refine ⟨d, hf, ?_⟩
   rw [h.curPage q hq hqc] at hd
   exact toolDef_serverPage h.nodup hd
@@ -229,65 +296,243 @@ theorem seqMonStep_list_fetched (c : B64) (m : SeqMon) (k : Bytes) (tools : Tool
       ({ m with listed := toolNames tools ++ m.listed, seen := tools ++ m.seen }, none) := by
   simp [seqMonStep, hm]
 
+/-- A page that is the server's current answer for cursor `k` becomes the most recent one, replacing the page of that
+cursor: every name the observer counts as listed, and every name of the new page, is still found in a current page first. -/
+theorem firstCur_put {w : World} {m : SeqMon} (h : SeqInv w m) (k : Bytes) (x : Page) (hxk : x.key = k) (hxc : x.cur = true)
+    (hxt : x.tools = (serverPage w.server w.pageSize k).1) (n : Bytes)
+    (hn : n ∈ toolNames x.tools ∨ n ∈ m.listed) : FirstCur n (x :: w.cache.filter (fun pg => pg.key != k)) := by
+  simp only [FirstCur]
+  split
+  · exact hxc
+  · rename_i hx
+    rcases hn with h1 | h1
+    · exact absurd (toolDef_isSome_of_name h1) hx
+    · apply firstCur_filter _ (h.listed n h1)
+      intro pg hpg hcur hsome
+      by_cases hk : pg.key = k
+      · exfalso
+        apply hx
+        have := h.curPage pg hpg hcur
+        rw [hk] at this
+        rw [hxt, ← this]
+        exact hsome
+      · simpa using hk
+
 theorem seqInv_put {c : B64} {w : World} {m : SeqMon} (h : SeqInv w m) (hp : w.newProto = true) (now : Nat) (k : Bytes) :
     SeqInv (putPage w now k).1 (seqMonStep c m (.list k) (putPage w now k).2).1 := by
   have hmp : m.newProto = true := by rw [h.proto, hp]
   rw [show (putPage w now k).2 = .listed false (serverPage w.server w.pageSize k).1 (serverPage w.server w.pageSize k).2 from rfl,
     seqMonStep_list_fetched c m k _ _ hmp]
   simp only [putPage]
-  refine { proto := h.proto, server := h.server, nodup := h.nodup, curPage := ?_, curSorted := ?_, listed := ?_ }
+  refine { proto := h.proto, server := h.server, psize := h.psize, nodup := h.nodup, curPage := ?_, listed := ?_, fresh := ?_,
+           pendEq := h.pendEq, pendLe := h.pendLe, pendCur := h.pendCur, pendFresh := h.pendFresh }
   · intro pg hpg hcur
     rcases List.mem_cons.mp hpg with he | hr
     · subst he
       rfl
     · exact h.curPage pg (List.mem_filter.mp hr).1 hcur
-  · exact ⟨fun hc => (by cases hc), curSorted_filter _ h.curSorted⟩
   · intro n hn
+    exact firstCur_put h k _ rfl rfl rfl n (List.mem_append.mp hn)
+  · intro hf pg hpg
+    rcases List.mem_cons.mp hpg with he | hr
+    · subst he
+      rfl
+    · exact h.fresh hf pg (List.mem_filter.mp hr).1
+
+theorem stalePend_map (po : Option Pending) (g : Nat) :
+    (stalePend po).map (fun p => (!p.cur, p.gen != g)) = (po.map (fun p => (!p.cur, p.gen != g))).map (fun x => (true, x.2)) := by
+  cases po <;> simp [stalePend]
+
+theorem seqInv_change {w : World} {m : SeqMon} (h : SeqInv w m) (ts : Tools) (hnd : (toolNames ts).Nodup) :
+    SeqInv { w with server := ts, cache := staleAll w.cache, pend := stalePend w.pend }
+      { m with server := ts, listed := [], fresh := false, pend := m.pend.map (fun x => (true, x.2)) } :=
+  { proto := h.proto, server := rfl, psize := h.psize, nodup := hnd,
+    curPage := fun pg hpg hcur => (by rw [mem_staleAll hpg] at hcur; cases hcur),
+    listed := fun _ hn => (by cases hn), fresh := fun hf => (by cases hf),
+    pendEq := (by simp only [h.pendEq]; exact (stalePend_map w.pend w.gen).symm),
+    pendLe := (by
+      intro p hp
+      cases hw : w.pend with
+      | none => simp [stalePend, hw] at hp
+      | some q =>
+        simp only [stalePend, hw, Option.map_some, Option.some.injEq] at hp
+        subst hp
+        exact h.pendLe q hw),
+    pendCur := (by
+      intro p hp hc
+      cases hw : w.pend with
+      | none => simp [stalePend, hw] at hp
+      | some q =>
+        simp only [stalePend, hw, Option.map_some, Option.some.injEq] at hp
+        subst hp
+        cases hc),
+    pendFresh := fun hf => (by cases hf) }
+
+/-- A page the model serves from the cache raises no `seqStaleList`: after a list_changed that followed the last change the
+cache holds only pages requested since, and those are the server's. -/
+theorem staleHit_cached {w : World} {m : SeqMon} (h : SeqInv w m) {k : Bytes} {pg : Page}
+    (hf : w.cache.find? (fun pg => pg.key == k) = some pg) (hit : Bool) : staleHit m k hit pg.tools = none := by
+  unfold staleHit
+  split
+  · rename_i hcnd
+    simp only [Bool.and_eq_true, bne_iff_ne, ne_eq] at hcnd
+    obtain ⟨⟨⟨_, hfr⟩, _⟩, hne⟩ := hcnd
+    exfalso
+    apply hne
+    have hmem := List.mem_of_find?_eq_some hf
+    have hk : pg.key = k := by simpa using List.find?_some hf
+    rw [h.server, h.psize, ← hk]
+    exact h.curPage pg hmem (h.fresh hfr pg hmem)
+  · rfl
+
+/-- What the observer learns from a page served from the cache keeps the invariant: after a list_changed that followed the
+last change every cached page is current, so the first page that names one of its tools is. -/
+theorem seqInv_learnHit {w : World} {m : SeqMon} (h : SeqInv w m) {k : Bytes} {pg : Page}
+    (hf : w.cache.find? (fun pg => pg.key == k) = some pg) (hit : Bool) : SeqInv w (learnHit m k hit pg.tools) := by
+  unfold learnHit
+  split
+  · rename_i hcnd
+    simp only [Bool.and_eq_true] at hcnd
+    obtain ⟨⟨⟨_, hfr⟩, _⟩, _⟩ := hcnd
+    have hmem := List.mem_of_find?_eq_some hf
+    refine { h with listed := ?_ }
+    intro n hn
     rcases List.mem_append.mp hn with h1 | h1
-    · exact ⟨_, List.mem_cons_self, rfl, toolDef_isSome_of_name h1⟩
-    · obtain ⟨pg, hpg, hcur, hsome⟩ := h.listed n h1
-      by_cases hk : pg.key = k
-      · refine ⟨_, List.mem_cons_self, rfl, ?_⟩
-        have := h.curPage pg hpg hcur
-        rw [hk] at this
-        simp only
-        rw [← this]
-        exact hsome
-      · refine ⟨pg, List.mem_cons_of_mem _ (List.mem_filter.mpr ⟨hpg, ?_⟩), hcur, hsome⟩
-        simpa using hk
+    · exact firstCur_of_all_cur (h.fresh hfr) ⟨pg, hmem, toolDef_isSome_of_name h1⟩
+    · exact h.listed n h1
+  · exact h
 
 /-- The invariant is preserved by every step, whatever the clock. -/
 theorem seqInv_step (c : B64) {w : World} {m : SeqMon} (h : SeqInv w m) (now : Nat) (op : SeqOp) :
     SeqInv (stepW c w now op).1 (seqMonStep c m op (stepW c w now op).2).1 := by
   cases op with
   | setTool n p =>
-    exact { proto := h.proto, server := (by simp [stepW, seqMonStep, h.server]), nodup := nodup_setTool n p h.nodup,
-            curPage := fun pg hpg hcur => (by rw [mem_staleAll hpg] at hcur; cases hcur),
-            curSorted := curSorted_staleAll _, listed := fun _ hn => (by cases hn) }
+    have := seqInv_change h _ (nodup_setTool n p h.nodup)
+    simpa only [stepW, seqMonStep, h.server] using this
   | delTool n =>
-    exact { proto := h.proto, server := (by simp [stepW, seqMonStep, h.server]), nodup := nodup_removeTool n h.nodup,
-            curPage := fun pg hpg hcur => (by rw [mem_staleAll hpg] at hcur; cases hcur),
-            curSorted := curSorted_staleAll _, listed := fun _ hn => (by cases hn) }
+    have := seqInv_change h _ (nodup_removeTool n h.nodup)
+    simpa only [stepW, seqMonStep, h.server] using this
   | ttl v => exact { h with }
   | adv => exact h
   | notified =>
-    exact { proto := h.proto, server := h.server, nodup := h.nodup, curPage := fun _ hpg => (by cases hpg),
-            curSorted := trivial, listed := fun _ hn => (by cases hn) }
+    refine { proto := h.proto, server := h.server, psize := h.psize, nodup := h.nodup, curPage := fun _ hpg => (by cases hpg),
+             listed := fun _ hn => (by cases hn), fresh := fun _ _ hpg => (by cases hpg), pendEq := ?_, pendLe := ?_,
+             pendCur := h.pendCur, pendFresh := ?_ }
+    · simp only [stepW, seqMonStep, h.pendEq]
+      cases hw : w.pend with
+      | none => rfl
+      | some q =>
+        have := h.pendLe q hw
+        have hne : (q.gen != w.gen + 1) = true := by simp; omega
+        simp [hne]
+    · intro p hp
+      have := h.pendLe p hp
+      simp only [stepW]
+      omega
+    · intro _ p hp hg
+      have := h.pendLe p hp
+      simp only [stepW] at hg
+      omega
   | list k =>
     cases hp : w.newProto with
     | false =>
       have hmp : m.newProto = false := by rw [h.proto, hp]
-      simp only [stepW, hp, Bool.not_false, if_true, seqMonStep, hmp, Bool.false_and, Bool.false_eq_true, if_false]
+      simp only [stepW, hp, Bool.not_false, if_true, seqMonStep, hmp, Bool.false_and, Bool.false_eq_true, if_false, learnHit]
       exact h
     | true =>
       have hmp : m.newProto = true := by rw [h.proto, hp]
       simp only [stepW, hp, Bool.not_true, Bool.false_eq_true, if_false]
       split
       · split
-        · simp only [seqMonStep, hmp, Bool.not_true, Bool.and_false, Bool.false_eq_true, if_false]
-          exact h
+        · rename_i pg hf _
+          simp only [seqMonStep, hmp, Bool.not_true, Bool.and_false, Bool.false_eq_true, if_false]
+          exact seqInv_learnHit h hf true
         · exact seqInv_put h hp now k
       · exact seqInv_put h hp now k
+  | listSend k =>
+    have hsent : w.pend = none → SeqInv (sendList w k).1 (seqMonStep c m (.listSend k) (sendList w k).2).1 := by
+      intro hw
+      have hmpend : m.pend = none := by rw [h.pendEq, hw]; rfl
+      simp only [sendList, seqMonStep, hmpend]
+      exact { proto := h.proto, server := h.server, psize := h.psize, nodup := h.nodup, curPage := h.curPage,
+              listed := h.listed, fresh := h.fresh, pendEq := (by simp),
+              pendLe := (by intro p hp; simp only [Option.some.injEq] at hp; subst hp; exact Nat.le_refl _),
+              pendCur := (by intro p hp _; simp only [Option.some.injEq] at hp; subst hp; rfl),
+              pendFresh := (by intro _ p hp _; simp only [Option.some.injEq] at hp; subst hp; rfl) }
+    simp only [stepW]
+    cases hw : w.pend with
+    | some q => exact h
+    | none =>
+      simp only []
+      split
+      · exact hsent hw
+      · split
+        · rename_i pg hf
+          split
+          · simp only [seqMonStep]
+            exact seqInv_learnHit h hf true
+          · exact hsent hw
+        · exact hsent hw
+  | listRecv =>
+    simp only [stepW]
+    cases hw : w.pend with
+    | none => exact h
+    | some p =>
+      have hmpend : m.pend = some (!p.cur, p.gen != w.gen) := by rw [h.pendEq, hw]; rfl
+      simp only [recvList, seqMonStep, hmpend]
+      cases hp : w.newProto with
+      | false =>
+        have hmp : m.newProto = false := by rw [h.proto, hp]
+        simp only [hmp, Bool.not_false, if_true, Bool.false_and, Bool.false_eq_true, if_false]
+        exact { proto := (by simp [hmp]), server := h.server, psize := h.psize, nodup := h.nodup, curPage := h.curPage,
+                listed := h.listed, fresh := h.fresh, pendEq := rfl, pendLe := fun _ hq => (by cases hq),
+                pendCur := fun _ hq => (by cases hq), pendFresh := fun _ _ hq => (by cases hq) }
+      | true =>
+        have hmp : m.newProto = true := by rw [h.proto, hp]
+        simp only [hmp, Bool.not_true, Bool.false_eq_true, if_false, Bool.true_and]
+        by_cases hg : p.gen = w.gen
+        · have h1 : (p.gen != w.gen) = false := by simp [hg]
+          have h2 : (p.gen == w.gen) = true := by simp [hg]
+          simp only [h1, h2, Bool.false_eq_true, if_false, if_true]
+          cases hc : p.cur with
+          | false =>
+            simp only [Bool.not_false, if_true]
+            refine { proto := (by simp [hmp]), server := h.server, psize := h.psize, nodup := h.nodup, curPage := ?_,
+                     listed := fun _ hn => (by cases hn), fresh := ?_, pendEq := rfl, pendLe := fun _ hq => (by cases hq),
+                     pendCur := fun _ hq => (by cases hq), pendFresh := fun _ _ hq => (by cases hq) }
+            · intro pg hpg hcur
+              rcases List.mem_cons.mp hpg with he | hr
+              · subst he
+                cases hcur
+              · exact h.curPage pg (List.mem_filter.mp hr).1 hcur
+            · intro hf
+              have := h.pendFresh hf p hw hg
+              rw [hc] at this
+              cases this
+          | true =>
+            have hpt := h.pendCur p hw hc
+            simp only [Bool.not_true, Bool.false_eq_true, if_false]
+            refine { proto := (by simp [hmp]), server := h.server, psize := h.psize, nodup := h.nodup, curPage := ?_,
+                     listed := ?_, fresh := ?_, pendEq := rfl, pendLe := fun _ hq => (by cases hq),
+                     pendCur := fun _ hq => (by cases hq), pendFresh := fun _ _ hq => (by cases hq) }
+            · intro pg hpg hcur
+              rcases List.mem_cons.mp hpg with he | hr
+              · subst he
+                exact hpt
+              · exact h.curPage pg (List.mem_filter.mp hr).1 hcur
+            · intro n hn
+              exact firstCur_put h p.key _ rfl rfl hpt n (List.mem_append.mp hn)
+            · intro hf pg hpg
+              rcases List.mem_cons.mp hpg with he | hr
+              · subst he
+                rfl
+              · exact h.fresh hf pg (List.mem_filter.mp hr).1
+        · have h1 : (p.gen != w.gen) = true := by simp [hg]
+          have h2 : (p.gen == w.gen) = false := by simp [hg]
+          simp only [h1, h2, Bool.false_eq_true, if_false, if_true]
+          exact { proto := (by simp [hmp]), server := h.server, psize := h.psize, nodup := h.nodup, curPage := h.curPage,
+                  listed := h.listed, fresh := h.fresh, pendEq := rfl, pendLe := fun _ hq => (by cases hq),
+                  pendCur := fun _ hq => (by cases hq), pendFresh := fun _ _ hq => (by cases hq) }
   | look n => exact h
   | call n a => exact h
 
@@ -348,6 +593,49 @@ theorem legacy_call_accepted (c : B64) (w : World) (hp : w.newProto = false) {n 
   unfold callModel callWith
   simp [hp, hs]
 
+/-- **list_changed beats the cache, in-flight responses included.**  For EVERY list of operations with arbitrary clocks —
+listings in flight (`listSend` … `listRecv`) overtaken by changes of the server's tools, by notifications and by other
+listings, any `ttlMs` —: once the client has handled a list_changed after the server's table last changed (`fresh`), every
+page in its cache is the server's current answer for that cursor.  (`putIfCurrent`: a result requested under an older
+cache generation is not stored; seeded change C12-m13 breaks exactly this.) -/
+theorem cache_current_after_list_changed (c : B64) (cfg : SeqCfg) (ops : List (Nat × SeqOp))
+    (hf : (runSeq c (World.init cfg) (SeqMon.init cfg) ops).2.1.fresh = true) :
+    ∀ pg ∈ (runSeq c (World.init cfg) (SeqMon.init cfg) ops).1.cache,
+      pg.tools = (serverPage (runSeq c (World.init cfg) (SeqMon.init cfg) ops).1.server
+        (runSeq c (World.init cfg) (SeqMon.init cfg) ops).1.pageSize pg.key).1 := by
+  have hinv := runSeq_inv c ops (seqInv_init cfg)
+  intro pg hpg
+  exact hinv.curPage pg hpg (hinv.fresh hf pg hpg)
+
+/-- … hence the next `ListTools`, at any clock and for any cursor, served from the cache or not, returns the tools of the
+server's current page. -/
+theorem list_current_after_list_changed (c : B64) (cfg : SeqCfg) (ops : List (Nat × SeqOp)) (now : Nat) (k : Bytes)
+    (hf : (runSeq c (World.init cfg) (SeqMon.init cfg) ops).2.1.fresh = true) :
+    ∃ hit next, (stepW c (runSeq c (World.init cfg) (SeqMon.init cfg) ops).1 now (.list k)).2 =
+      .listed hit (serverPage (runSeq c (World.init cfg) (SeqMon.init cfg) ops).1.server
+        (runSeq c (World.init cfg) (SeqMon.init cfg) ops).1.pageSize k).1 next := by
+  have hcur := cache_current_after_list_changed c cfg ops hf
+  generalize (runSeq c (World.init cfg) (SeqMon.init cfg) ops).1 = w at hcur ⊢
+  simp only [stepW]
+  split
+  · exact ⟨false, _, rfl⟩
+  · split
+    · rename_i pg hfind
+      split
+      · have hk : pg.key = k := by simpa using List.find?_some hfind
+        refine ⟨true, pg.next, ?_⟩
+        rw [hcur pg (List.mem_of_find?_eq_some hfind), hk]
+      · exact ⟨false, _, rfl⟩
+    · exact ⟨false, _, rfl⟩
+
+/-- A response that arrives after the client handled a list_changed that followed its request is not stored: the cache is
+what it was (empty, if nothing else was listed since). -/
+theorem overtaken_response_dropped (w : World) (now : Nat) (p : Pending) (hg : p.gen ≠ w.gen) :
+    (recvList w now p).1.cache = w.cache := by
+  unfold recvList
+  have : (p.gen == w.gen) = false := by simp [hg]
+  simp [this]
+
 /-! ## the boundary: witnesses -/
 
 section witnesses
@@ -369,6 +657,40 @@ def finalM (cfg : SeqCfg) (ops : List (Nat × SeqOp)) : SeqMon := (runSeq idCode
 def opsLapsed : List (Nat × SeqOp) := [(0, .ttl 40), (0, .setTool wA wProps), (0, .list []), (1000, .adv)]
 example : wA ∈ (finalM wCfg opsLapsed).listed ∧ toolDef (finalW wCfg opsLapsed).server wA = some wProps ∧
     callModel idCodec (finalW wCfg opsLapsed) wA wArgs = (wHdrs, .okSame) := by decide
+
+/-- The sequence of seeded change C12-m13: the first listing of the session is in flight (answered with the un-annotated
+definition) when the tool is re-registered with an annotation and the client handles the list_changed; the overtaken
+response arrives afterwards.  `putIfCurrent` drops it (the generation moved on although the cache was empty), the next
+`ListTools` asks the server, and the call agrees. -/
+def opsOvertaken : List (Nat × SeqOp) :=
+  [(0, .ttl 60000), (0, .setTool wA wPlain), (0, .listSend []), (1, .setTool wA wProps), (12, .notified), (13, .listRecv)]
+theorem overtaken_listing_not_cached : (finalW wCfg opsOvertaken).cache = [] ∧ (finalW wCfg opsOvertaken).gen = 1 ∧
+    (finalW wCfg (opsOvertaken ++ [(14, .list [])])).cache.map (·.tools) = [[(wA, wProps)]] ∧
+    wA ∈ (finalM wCfg (opsOvertaken ++ [(14, .list [])])).listed ∧
+    callModel idCodec (finalW wCfg (opsOvertaken ++ [(14, .list [])])) wA wArgs = (wHdrs, .okSame) := by decide
+
+/-- Why the generation must move on even when the cache is EMPTY (seeded change C12-m13 makes `invalidate` a no-op then):
+take the session before the notification, leave the world as it is (nothing cached, same generation), let the response
+arrive and list again — the overtaken page is served from the cache, `lookupTool` answers with the un-annotated
+definition and the server refuses the call although the client handled list_changed and listed the tool afterwards. -/
+theorem lazy_invalidation_disagrees :
+    let w0 := finalW wCfg (opsOvertaken.take 4)
+    let w2 := (stepW idCodec w0 13 .listRecv).1
+    w0.cache = [] ∧ w2.cache.map (·.tools) = [[(wA, wPlain)]] ∧
+    (stepW idCodec w2 14 (.list [])).1.cache.map (·.tools) = [[(wA, wPlain)]] ∧
+    toolDef w2.server wA = some wProps ∧
+    callModel idCodec (stepW idCodec w2 14 (.list [])).1 wA wArgs = ([], .notOk (some (-32020)) true) := by decide
+
+/-- Not claimed either way (an observation): WITHOUT a list_changed in between, a response that was overtaken by a change of
+the table and by a later listing is stored when it arrives — as the most recent page.  The tool the client had just listed
+under its current definition is then looked up in the OLD page, and the call is refused.  The observer stops counting the
+names as listed when such a response arrives. -/
+def opsOvertakenQuiet : List (Nat × SeqOp) :=
+  [(0, .ttl 60000), (0, .setTool wA wPlain), (0, .listSend []), (1, .setTool wA wProps), (2, .list []), (3, .listRecv)]
+theorem overtaken_without_notification_forgets : wA ∉ (finalM wCfg opsOvertakenQuiet).listed ∧
+    wA ∈ (finalM wCfg (opsOvertakenQuiet.take 5)).listed ∧
+    clientLookup (finalW wCfg opsOvertakenQuiet) wA = some wPlain ∧
+    callModel idCodec (finalW wCfg opsOvertakenQuiet) wA wArgs = ([], .notOk (some (-32020)) true) := by decide
 
 /-- Never listed: the client sends no header, the server (which knows its tool) demands one. -/
 def opsNever : List (Nat × SeqOp) := [(0, .setTool wA wProps)]
